@@ -316,7 +316,7 @@ fn version_pairs_case(t: &mut Tape, rec: &mut Rec) -> CaseResult {
 }
 
 // ---------------------------------------------------------------------------------------------
-// (c)/(g) certificates: mixed versions, path equivalence
+// (b') signer version x signee version x signature version x {third-party user id certification, third-party key signature, subkey binding, primary key binding}: aligned with the signer => made by the API and verifies, not aligned => refused, independent of the signee's version; (c)/(g) certificates: mixed versions, path equivalence
 // ---------------------------------------------------------------------------------------------
 
 struct Cert {
@@ -685,6 +685,85 @@ fn issuer_fpr_version_case(t: &mut Tape, rec: &mut Rec) -> CaseResult {
     Ok(())
 }
 
+
+// ---------------------------------------------------------------------------------------------
+// (b') two-party signatures: the version rule is about the SIGNER's key, whatever the signee is
+// ---------------------------------------------------------------------------------------------
+
+/// signer version x signee version x signature version x {user id certification, key signature,
+/// subkey binding, primary key binding}: a signature whose version matches the signer's key
+/// version is made by the honest API and must verify; one whose version does not is made by a
+/// signer that lies about its version (correct digest, valid signature value) and must be refused
+fn two_party_table_case(t: &mut Tape, rec: &mut Rec) -> CaseResult {
+    use pgp::types::Tag;
+    let idx = t.u64() as usize;
+    let signer_v6 = idx & 1 == 1;
+    let signee_v6 = idx & 2 == 2;
+    let sig_v6 = idx & 4 == 4;
+    let form = (idx >> 3) % 4;
+    let signer_kind = if signer_v6 { Kind::Ed25519V6 } else { Kind::Ed25519V4 };
+    let signee_kind = if signee_v6 { Kind::Ed25519V6B } else { Kind::Ed25519V4B };
+    let zs = zoo::get(signer_kind);
+    let ze = zoo::get(signee_kind);
+    let signer = &zs.secret.primary_key;
+    let signer_pub = &zs.public.primary_key;
+    let signee_pub = &ze.public.primary_key;
+    let signee_sub = &ze.public.public_subkeys[0].key;
+    let uid = pgp::packet::UserId::from_str(Default::default(), "two party <t@example.org>").map_err(|e| f("C15:config", e.to_string()))?;
+    let form_name = ["third-party user id certification", "third-party key signature", "subkey binding", "primary key binding"][form];
+    // bindings inside one certificate with mixed versions have no verdict fixed by the statement
+    if form >= 2 && signer_v6 != signee_v6 {
+        rec.discard();
+        return Ok(());
+    }
+    let aligned = signer_v6 == sig_v6;
+    rec.nontrivial(idx);
+    rec.label(format!("two-party:{form_name}"));
+    rec.label(if aligned { "two-party:aligned" } else { "two-party:misaligned" });
+    rec.describe(|| format!("{form_name}: v{} signature by the v{} key {signer_kind:?} over the v{} key {signee_kind:?}", if sig_v6 { 6 } else { 4 }, if signer_v6 { 6 } else { 4 }, if signee_v6 { 6 } else { 4 }));
+    let pw = Password::empty();
+    let mut rng = ChaCha8Rng::seed_from_u64(0xC15 + idx as u64);
+    let typ = match form {
+        0 => SignatureType::CertGeneric,
+        1 => SignatureType::Key,
+        2 => SignatureType::SubkeyBinding,
+        _ => SignatureType::KeyBinding,
+    };
+    let mut cfg = if sig_v6 { SignatureConfig::v6(&mut rng, typ, signer.algorithm(), HashAlgorithm::Sha512).map_err(|e| f("C15:config", e.to_string()))? } else { SignatureConfig::v4(typ, signer.algorithm(), HashAlgorithm::Sha512) };
+    cfg.hashed_subpackets = vec![Subpacket::regular(SubpacketData::SignatureCreationTime(Timestamp::from_secs(1_700_000_010))).unwrap()];
+    let mut liar = RecordingSigner::new(signer, true);
+    if !aligned {
+        liar.lie_version = Some(if sig_v6 { KeyVersion::V6 } else { KeyVersion::V4 });
+    }
+    let made = match form {
+        0 => cfg.sign_certification_third_party(&liar, &pw, signee_pub, Tag::UserId, &uid),
+        1 => cfg.sign_key(&liar, &pw, signee_pub),
+        2 => cfg.sign_subkey_binding(&liar, signer_pub, &pw, signee_sub),
+        _ => cfg.sign_primary_key_binding(&liar, signer_pub, &pw, signee_pub),
+    };
+    let sig = match made {
+        Ok(s) => s,
+        Err(e) => {
+            if aligned {
+                return fail("C15:aligned-two-party-signature-cannot-be-made", format!("{form_name}: {e}"));
+            }
+            rec.label("forgery-not-constructible-through-the-api");
+            return Ok(());
+        }
+    };
+    let verdict = match form {
+        0 => sig.verify_third_party_certification(signee_pub, signer_pub, Tag::UserId, &uid),
+        1 => sig.verify_key_third_party(signee_pub, signer_pub),
+        2 => sig.verify_subkey_binding(signer_pub, signee_sub),
+        _ => sig.verify_primary_key_binding(signer_pub, signee_pub),
+    };
+    match (aligned, verdict) {
+        (true, Err(e)) => fail(format!("C15:aligned-two-party-signature-rejected:{}", form_name.replace(' ', "-")), format!("a v{} signature made by a v{} key over a v{} key was refused: {e}", if sig_v6 { 6 } else { 4 }, if signer_v6 { 6 } else { 4 }, if signee_v6 { 6 } else { 4 })),
+        (false, Ok(())) => fail(format!("C15:cross-version-signature-accepted:{}", form_name.replace(' ', "-")), format!("a v{} signature made with the material of a v{} key (over a v{} key) verified", if sig_v6 { 6 } else { 4 }, if signer_v6 { 6 } else { 4 }, if signee_v6 { 6 } else { 4 })),
+        _ => Ok(()),
+    }
+}
+
 pub fn run(ctx: &Ctx) {
     ctx.set_rule("decision tables, every cell enumerated, expected outcome derived from the statement: (a) {PKESK v3,v6; SKESK v4,v5,v6} wrapping the correct session key x {SED, SEIPDv1, SEIPDv2, GnuPG-AEAD} x options {default, legacy, gnupg_aead, both}, with and without an aligned decoy ESK, plus explicit PlainSessionKey kinds x containers x options - ESKs and containers are produced by the reference (R-crypto/R-wire); (b) key version x signature version: honest keys must be refused when making, cross-version signatures with a correct digest and valid signature value (signer lying about its version) must be refused by Signature::verify, Message::verify and verify_nested; (c)/(g) certificates: intact zoo certificates, mixed-version subkeys (secret and public subkey packets), signing subkeys with and without back signature, swapped bindings, substituted user id - secret path, public path, derived public key, binary/armored/auto-detecting import must agree and match the expected verdict; (d) one-pass header vs trailing signature: type, hash, public-key algorithm, version, salt; (e) every unassigned subpacket id 0..127 x critical bit x v4/v6 in the hashed area of a valid signature, issuer-fingerprint version mismatch; non-trivial = every cell; distinct = cell");
     ctx.assume("GnuPG-AEAD containers and SKESK v5 are built per the LibrePGP draft by the reference; their positive cells double as a control of that construction");
@@ -693,6 +772,7 @@ pub fn run(ctx: &Ctx) {
     ctx.group("esk-container-options-table", Source::Indexed { count: n_a }, esk_table_case);
     ctx.group("session-key-kind-table", Source::Indexed { count: 48 }, session_key_table_case);
     ctx.group("key-version-signature-version", Source::Indexed { count: 4 }, version_pairs_case);
+    ctx.group("two-party-signature-versions", Source::Indexed { count: 32 }, two_party_table_case);
     let certs = certificates();
     ctx.note("certificate_variants", serde_json::json!(certs.iter().map(|c| c.what.clone()).collect::<Vec<_>>()));
     ctx.group("certificate-paths", Source::Indexed { count: certs.len() as u64 }, |t, rec| certificate_case(t, rec, &certs));
